@@ -151,6 +151,24 @@ def run(ctx):
         C.check(ok, 'C16-MUST-atomic', '%s|lookup-and-create-under-one-guard' % fn.split('::')[-1], '%s decides "no such sub element" without holding the write lock that it creates under (no scan of the content list between the lock and the creating call): '
                 'two threads calling it concurrently both find nothing and both create - two sub elements, which no serial order of the two calls produces' % fn, b.where(cr[0]) if cr else '%s:%d' % (b.file, b.line),
                 sample={'fn': fn, 'lock': len(lk), 'scan_under_lock': ok, 'create_calls': len(cr)})
+    # create_file: "is there a file of that name?" and "add the file" under one guard of the model
+    cf = P.find('AutosarModel::create_file')
+    if cf is None:
+        C.anchor_missing('C16-MUST-atomic', 'AutosarModel::create_file')
+    else:
+        from flow import receiver_chain_locals as _sl
+        from ir import has_field as _hf2
+        import events as _E2
+        lockdst = {cf.blocks[q[0]]['term']['dst']['l']: q for q in _calls(cf, r'RwLock::<R, T>::(write|read|try_write\w*|try_read\w*|upgradable_read)$')}
+        scans = [q for q in _calls(cf, r'Iterator>?::(any|find|position|all)$|<impl \[T\]>::contains$') if 'AutosarModelRaw.files' in _ds(cf, cf.blocks[q[0]]['term']['args'][0], depth=14)[2]]
+        pushes = [q for q, t in cf.iter_calls() if call_matches(t, r'Vec::<T, A>::(push|insert)$') and (lambda rp: rp is not None and _hf2(rp, 'AutosarModelRaw.files'))(_E2.recv_place(cf, t))]
+        def guard_of(q):
+            t = cf.blocks[q[0]]['term']
+            return set(lockdst) & _sl(cf, t['args'][0])
+        oka = bool(scans) and bool(pushes) and all(guard_of(s_) and guard_of(s_) == guard_of(p_) for s_ in scans for p_ in pushes)
+        C.check(oka, 'C16-MUST-atomic', 'create_file|name-check-and-insert-under-one-guard', 'create_file checks for an existing file of the same name and adds the new file under two separate acquisitions of the model lock: '
+                'two concurrent create_file calls with the same name both succeed and the model holds two files of one name, which no serial order produces', cf.where(pushes[0]) if pushes else '%s:%d' % (cf.file, cf.line),
+                sample={'fn': 'create_file', 'scan_guard': sorted(map(str, [guard_of(s_) for s_ in scans])), 'push_guard': sorted(map(str, [guard_of(p_) for p_ in pushes]))})
     C.floor('C16-FLOW-lockfail.lock-error-functions', len(can), 20)
     C.extra['pairs_examined'] = n_all
     C.extra['pairs_with_lock_error_exit'] = n
